@@ -119,11 +119,28 @@ def setter_facts(db, f):
                 return None
             sz = t["w"] // 8
             return fl["enumc"], fl["v"], sz, sz, "add_integral_option<%s>" % t.get("s")
-    for n in facts.fn_nodes(f):
+    # the option built in the setter itself, or in a free helper (template instance) the setter hands flag and value to:
+    # the helper's parameters stand for the setter's arguments
+    where = [(f, {})]
+    for _ in range(2):
+        for (h0, b0) in list(where):
+            for c in facts.fn_nodes(h0):
+                if c["k"] == "CallExpr" and c.get("callee") and not c.get("ext"):
+                    h1 = db.fn(c["callee"])
+                    if h1 is not None and h1.get("body") and not h1.get("rec") and not any(h1 is w_[0] for w_ in where):
+                        b1 = {}
+                        for p_, a_ in zip(h1.get("params", ()), c["c"][1:]):
+                            a0 = strip(a_)
+                            b1[p_["var"]] = b0.get(a0.get("var"), a0) if a0["k"] == "DeclRefExpr" else a0
+                        where.append((h1, b1))
+    for (f, bind) in where:
+      for n in facts.fn_nodes(f):
         if n["k"] in ("CXXTemporaryObjectExpr", "CXXConstructExpr") and (n.get("crec") or "").startswith("Tins::PDUOption<Tins::RadioTap::PresentFlags"):
             a = n.get("c", [])
             if len(a) >= 3:
                 fl = strip(a[0])
+                if fl["k"] == "DeclRefExpr" and fl.get("var") in bind:
+                    fl = bind[fl["var"]]
                 ln = facts.cval(a[1])
                 if fl["k"] == "DeclRefExpr" and "enumc" in fl and ln is not None:
                     nat = 1
@@ -131,7 +148,10 @@ def setter_facts(db, f):
                         if mc["k"] == "CallExpr" and mc.get("cname") == "memcpy":
                             src = facts.strip_all(mc["c"][2])
                             if src["k"] == "UnaryOperator" and src.get("op") == "&":
-                                a_ = scalar_natural(db, f, facts.ty(f, src["c"][0]))
+                                st_ = facts.ty(f, src["c"][0])
+                                while st_ and st_.get("k") == "ref" and st_.get("to"):
+                                    st_ = st_["to"] if isinstance(st_["to"], dict) else facts.tyi(f, st_["to"])
+                                a_ = scalar_natural(db, f, st_)
                                 if a_ is None:
                                     return None
                                 nat = max(nat, a_)
@@ -190,9 +210,13 @@ def getter_facts(db, f):
     if fl is None:
         return None
     reads = []
-    for n in facts.fn_nodes(f):
+    # (a free helper the option is handed to - `read_raw_option<T>(opt)` - reads on the getter's behalf)
+    helpers = [h for h in (db.fn(c.get("callee")) for c in facts.fn_nodes(f) if c["k"] == "CallExpr" and c.get("callee") and not c.get("ext"))
+               if h is not None and h.get("body") and not h.get("rec") and
+               any("PDUOption<Tins::RadioTap::PresentFlags" in ((facts.tyi(h, p_.get("t")) or {}).get("s") or "") for p_ in h.get("params", ()))]
+    for own_, n in [(h, x) for h in helpers for x in facts.fn_nodes(h)] + [(f, x) for x in facts.fn_nodes(f)]:
         if n["k"] == "CXXMemberCallExpr" and n.get("cname") == "to":
-            t = facts.ty(f, n)
+            t = facts.ty(own_, n)
             if t and t.get("k") in ("int", "bool", "enum"):
                 reads.append((0, t["w"] // 8, "to<%s>" % t.get("s")))
         if n["k"] == "CallExpr" and n.get("cname") == "memcpy":
@@ -356,10 +380,12 @@ def r2(db, rep):
                 rep.violation("R2-shared-table", key, facts.loc(f), "the padding vector is not built from RADIOTAP_METADATA's size and alignment")
         if f["qual"].endswith("write_option"):
             key = "write_option:skip-by-table"
-            adv = [n for n in facts.fn_nodes(f) if n["k"] == "BinaryOperator" and n.get("op") == "=" and
-                   facts.expr_str(n["c"][0]) == "candidate_ptr"]
-            if adv and all(mentions(f, a["c"][1], ("size",)) for a in adv):
-                rep.ok("R2-shared-table", key, facts.loc(f, adv[0]), "lower fields are skipped by meta.size")
+            # (the scan may live in a helper that receives the insertion pointer by reference)
+            hits = facts.lifted_sites(db, f, lambda h_, n, txt: n["k"] == "BinaryOperator" and n.get("op") == "=" and
+                                      txt(n["c"][0]) == "candidate_ptr", must=False)
+            adv = [m for (_, m, h_) in hits]
+            if adv and all(mentions(h_, m["c"][1], ("size",)) for (_, m, h_) in hits):
+                rep.ok("R2-shared-table", key, facts.loc(f, hits[0][0]), "lower fields are skipped by meta.size")
             else:
                 rep.violation("R2-shared-table", key, facts.loc(f), "the insertion point is not advanced by RADIOTAP_METADATA[bit].size")
     if n_calls < 2:
@@ -543,13 +569,18 @@ def r4(db, rep):
     # overwrite path only when the parser's current field equals the option
     key = "write_option:overwrite-guard"
     # memcpy(dst, ...) / std::copy(first, last, dst) with dst = the parser's current option (named locals read through)
-    ow = [n for n in facts.fn_nodes(f) if n["k"] == "CallExpr" and (
-          (n.get("cname") in ("memcpy", "memmove") and "current_option_ptr" in facts.expr_str(facts.inline_locals(f, n["c"][1]))) or
-          (n.get("cname") in ("copy", "copy_n") and len(n["c"]) >= 4 and "current_option_ptr" in facts.expr_str(facts.inline_locals(f, n["c"][3]))))]
-    if not ow:
+    def is_ow(h_, n, txt):
+        return n["k"] == "CallExpr" and (
+            (n.get("cname") in ("memcpy", "memmove") and "current_option_ptr" in facts.expr_str(facts.inline_locals(h_, n["c"][1]))) or
+            (n.get("cname") in ("copy", "copy_n") and len(n["c"]) >= 4 and "current_option_ptr" in facts.expr_str(facts.inline_locals(h_, n["c"][3]))))
+    ows = facts.lifted_sites(db, f, is_ow, must=False)
+    if not ows:
         rep.violation("R4-present", key, facts.loc(f), "no in-place overwrite of a field that is already present: a repeated setter would insert a second copy")
         return
     from vlib import cond
+    ow = [ows[0][1]]
+    f = ows[0][2]          # the function the overwrite is written in (write_option or the scanning helper)
+    g = g if f is fs[0] else cfg.FnCFG(f)
     gf = cond.guards_facts(g, g.pos(ow[0]))
     okg = any(op == "==" and r is not None and "current_field" in facts.expr_str(l) + facts.expr_str(r) and
               "option" in facts.expr_str(l) + facts.expr_str(r) for op, l, r in gf)
